@@ -38,15 +38,47 @@ def register(R):
     )
 
     R.module("easynetwork/lowlevel/api_async/endpoints/stream.py")
-    K, BUF = "self.consumer._StreamDataConsumer__consumer", "self.consumer._StreamDataConsumer__buffer"
-    U = f"(({K}.T if not isnone({K}) else b'') + {BUF})"
     R.shape("_AsyncDataReceiverImpl", cls="_DataReceiverImpl",
             fields={"transport": "AsyncStreamReadTransport", "consumer": "StreamDataConsumer", "max_recv_size": "int", "_eof_reached": "bool"},
             invariant=[("read-size-positive", "self.max_recv_size >= 1")])
+    rc = copy_receiver_clauses("self")
+    R.contract(
+        "_DataReceiverImpl.receive",
+        self_shape="_AsyncDataReceiverImpl",
+        result="obj",
+        loops={1: {"inv": ["bufsize == self.max_recv_size", "bufsize >= 1"] + rc["loop"]}},
+        requires=rc["requires"], ghost=rc["ghost"], ensures=rc["ensures"], raises=rc["raises"], modifies=rc["modifies"],
+        tags="C03 C10",
+    )
+    # the endpoint and the TCP client hand the receiver's outcome through unchanged, under their receive guard / lock
+    R.shape("AsyncStreamEndpointR", cls="AsyncStreamEndpoint",
+            fields={"__transport": "AsyncStreamTransport", "__recv_guard": "ResourceGuard", "__receiver": "_AsyncDataReceiverImpl"})
+    rg = "self.__recv_guard._ResourceGuard__held"
+    re_ = copy_receiver_clauses("self.__receiver")
+    R.contract(
+        "AsyncStreamEndpoint.recv_packet", self_shape="AsyncStreamEndpointR",
+        result="obj",
+        requires=re_["requires"], ghost=re_["ghost"],
+        ensures=re_["ensures"] + [("guard-was-free-and-is-released", f"not old({rg}) and not {rg}", "C12")],
+        raises={"BusyResourceError": [("second-entrant-is-refused-without-reading", f"old({rg}) and ghost.IN == old(ghost.IN) and ghost.recv_calls == old(ghost.recv_calls)", "C12 C03")],
+                **{k: v + [("guard-released-on-every-exit", f"not {rg}", "C12")] for k, v in re_["raises"].items()}},
+        modifies=re_["modifies"] + [rg],
+        tags="C03 C10 C12",
+    )
+    register_buffered(R)
+    register_async_tcp_client(R)
+
+
+def copy_receiver_clauses(S):
+    """The clauses of the copying receiver's `receive()` stated on the receiver object reached through the access path S
+    (`self` for the receiver itself, `self.__receiver` for the endpoint, ... for the client)."""
+    K, BUF = f"{S}.consumer._StreamDataConsumer__consumer", f"{S}.consumer._StreamDataConsumer__buffer"
+    U = f"(({K}.T if not isnone({K}) else b'') + {BUF})"
+    EOFL = f"{S}._eof_reached"
 
     def PX(X):
         d = P(X, "StreamProtocol")
-        return {k: v.replace("self.__protocol._StreamProtocol__converter", "self.consumer._StreamDataConsumer__protocol._StreamProtocol__converter") for k, v in d.items()}
+        return {k: v.replace("self.__protocol._StreamProtocol__converter", f"{S}.consumer._StreamDataConsumer__protocol._StreamProtocol__converter") for k, v in d.items()}
 
     IN0 = "old(ghost.IN)"
     X = f"(U0 + ghost.IN[len({IN0}):])"
@@ -55,47 +87,43 @@ def register(R):
         ("consumer-inv-suspended-needs-more", f"implies(not isnone({K}), fn('S_kind', 'int', {K}.T) == 0)"),
         ("consumer-inv-no-side-buffer", f"implies(not isnone({K}), {BUF} == b'')"),
     ]
-    latch = ("eof-latched-exactly-when-the-transport-reported-it", "self._eof_reached == ghost.EOF and implies(old(self._eof_reached), self._eof_reached)", "C03")
-    R.contract(
-        "_DataReceiverImpl.receive",
-        self_shape="_AsyncDataReceiverImpl",
-        result="obj",
-        requires=[("deserializer-needs-input", "fn('S_kind', 'int', b'') == 0"), ("latch-mirrors-the-transport", "self._eof_reached == ghost.EOF")],
-        ghost={"U0": U},
-        loops={1: {"inv": [
-            "bufsize == self.max_recv_size", "bufsize >= 1",
+    latch = ("eof-latched-exactly-when-the-transport-reported-it", f"{EOFL} == ghost.EOF and implies(old({EOFL}), {EOFL})", "C03")
+    return {
+        "requires": [("deserializer-needs-input", "fn('S_kind', 'int', b'') == 0"), ("latch-mirrors-the-transport", f"{EOFL} == ghost.EOF")],
+        "ghost": {"U0": U},
+        "loop": [
             f"len(ghost.IN) >= len({IN0})", f"ghost.IN[:len({IN0})] == {IN0}",
             f"{U} == {X}", p["need"], p0["need"],
-            "implies(old(self._eof_reached), self._eof_reached and ghost.recv_calls == old(ghost.recv_calls))",
-            "self._eof_reached == ghost.EOF", "ghost.io_errors == old(ghost.io_errors)",
-        ] + [e for _n, e in cons_inv]}},
-        ensures=[
+            f"implies(old({EOFL}), {EOFL} and ghost.recv_calls == old(ghost.recv_calls))",
+            f"{EOFL} == ghost.EOF", "ghost.io_errors == old(ghost.io_errors)",
+        ] + [e for _n, e in cons_inv],
+        "ensures": [
             ("parser-done-on-all-pending-bytes", p["done"], "C03"),
             ("packet", f"result == {p['pkt']}", "C03"),
             ("remainder-kept", f"{U} == {p['rest']}", "C03 C10"),
             ("drain-first: a buffered outcome is returned without reading", f"implies(not ({p0['need']}), ghost.recv_calls == old(ghost.recv_calls) and ghost.IN == {IN0})", "C03"),
             latch,
         ] + [(n, e, "C03") for n, e in cons_inv],
-        raises={
+        "raises": {
             "StreamProtocolParseError": [
                 ("parser-error-on-all-pending-bytes", p["err"], "C03 C06"), ("remainder-kept", f"{U} == {p['rest']}", "C03 C10"), latch,
             ] + [(n, e, "C03") for n, e in cons_inv],
             "ConnectionAbortedError": [
-                ("end-of-stream-was-reached (unless the transport itself failed with this error)", "(self._eof_reached and ghost.EOF) or ghost.io_errors != old(ghost.io_errors)", "C03"),
+                ("end-of-stream-was-reached (unless the transport itself failed with this error)", f"({EOFL} and ghost.EOF) or ghost.io_errors != old(ghost.io_errors)", "C03"),
                 ("only-an-incomplete-frame-is-pending", p["need"], "C03"),
                 ("nothing-lost", f"{U} == {X}", "C03 C10"),
-                ("sticky: no transport call once end-of-stream was seen", "implies(old(self._eof_reached), ghost.recv_calls == old(ghost.recv_calls))", "C03"),
+                ("sticky: no transport call once end-of-stream was seen", f"implies(old({EOFL}), ghost.recv_calls == old(ghost.recv_calls))", "C03"),
             ] + [(n, e, "C03") for n, e in cons_inv],
             "BaseException": [
                 ("cancelled-or-failed-receive-loses-nothing: every byte the transport returned is still pending", f"{U} == {X}", "C10 C03"),
                 ("pending-is-incomplete", p["need"], "C10"),
-                latch, ("never-instead-of-end-of-stream", "not self._eof_reached", "C03"),
+                latch, ("never-instead-of-end-of-stream", f"not {EOFL}", "C03"),
             ] + [(n, e, "C10") for n, e in cons_inv],
         },
-        modifies=["self._eof_reached", BUF, K, "ghost.IN", "ghost.recv_calls", "ghost.EOF", "ghost.io_errors"],
-        tags="C03 C10",
-    )
-    register_buffered(R)
+        "modifies": [EOFL, BUF, K, "ghost.IN", "ghost.recv_calls", "ghost.EOF", "ghost.io_errors"],
+    }
+
+
 
 
 def register_buffered(R):
@@ -169,4 +197,43 @@ def register_buffered(R):
                 ("all-pending-bytes-are-in-front-of-the-generator", f"{K}.T + {B}[{sp}:{sp} + {w} + result] == U0 + ghost.IN[len(old(ghost.IN)):]"),
             ]}},
         tags="C03 C10",
+    )
+
+
+def register_async_tcp_client(R):
+    """AsyncTCPNetworkClient.recv_packet / send_packet (C03, C12): the endpoint's outcome is handed through under the client's
+    receive / send lock; connection errors (incl. an abrupt TLS end) are reported as ConnectionAbortedError like any end-of-stream.
+    `__ensure_connected` (lazy connection set-up) is an assumed contract: it returns the client's endpoint or fails."""
+    R.module("easynetwork/clients/async_tcp.py")
+    R.inline_fn("AsyncTCPNetworkClient.__convert_socket_error", "AsyncTCPNetworkClient.__abort", "AsyncTCPNetworkClient.__closed")
+    R.shape("AsyncTCPNetworkClientIO", cls="AsyncTCPNetworkClient",
+            fields={"__backend": "AsyncBackend", "__endpoint": "AsyncStreamEndpointR", "__receive_lock": "LockModel"})
+    RL = "self.__receive_lock.held_by_me"
+    R.contract("AsyncTCPNetworkClient.__ensure_connected", self_shape="AsyncTCPNetworkClientIO", result="obj", trusted=True,
+               ensures=["same_object(result, self.__endpoint)"],
+               raises={"ClientClosedError": ["True"], "BaseException": ["not typeof(exc, 'Exception')"]},  # client already connected (the shape has an endpoint)
+               env={"returns_field": "_AsyncTCPNetworkClient__endpoint"})
+    rc = copy_receiver_clauses("self.__endpoint._AsyncStreamEndpoint__receiver")
+    guard = "self.__endpoint._AsyncStreamEndpoint__recv_guard._ResourceGuard__held"
+    need = [cl for cl in rc["raises"]["ConnectionAbortedError"] if cl[0] == "only-an-incomplete-frame-is-pending"]
+    R.contract(
+        "AsyncTCPNetworkClient.recv_packet", self_shape="AsyncTCPNetworkClientIO",
+        result="obj",
+        requires=rc["requires"] + [("receive-lock-free-at-entry", f"not {RL}"), ("receive-guard-used-only-under-the-receive-lock", f"not {guard}")],
+        ghost=rc["ghost"],
+        ensures=rc["ensures"] + [("receive-lock-released", f"not {RL}", "C12")],
+        raises={
+            "ConnectionAbortedError": [
+                ("end-of-stream-is-never-reported-while-a-complete-packet-is-buffered", need[0][1], "C03"),
+                ("nothing-lost", [cl for cl in rc["raises"]["ConnectionAbortedError"] if cl[0] == "nothing-lost"][0][1], "C03 C10"),
+                ("receive-lock-released", f"not {RL}", "C12")],
+            "ssl.SSLEOFError": [("an-abrupt-end-of-the-TLS-stream-is-reported-as-ConnectionAbortedError-like-any-end-of-stream", "False", "C03 C09")],
+            "StreamProtocolParseError": rc["raises"]["StreamProtocolParseError"] + [("receive-lock-released", f"not {RL}", "C12")],
+            "BaseException": [("receive-lock-released-on-every-exit", f"not {RL}", "C12"),
+                              [cl for cl in rc["raises"]["BaseException"] if cl[0].startswith("cancelled-or-failed-receive-loses-nothing")][0]],
+        },
+        modifies=rc["modifies"] + [RL, "self.__receive_lock.held_by_other", guard, "ghost.locks_held"],
+        env={"exc_universe": ["ssl.SSLEOFError", "ssl.SSLZeroReturnError", "ssl.SSLError", "ClientClosedError"],
+             "call_hints": {"recv_packet": [("the-read-happens-while-the-receive-lock-is-held", RL)]}},
+        tags="C03 C10 C12",
     )
